@@ -18,6 +18,7 @@ func init() {
 		Entries: []Entry{
 			{PkgPath: fsPkg, Func: "verifC12Quick", Opt: big},
 			{PkgPath: fsPkg, Func: "verifC12TwoDirs", Opt: big},
+			{PkgPath: fsPkg, Func: "verifC12OddNames", Opt: big},
 			{PkgPath: fsPkg, Func: "verifC12Thorough", Opt: big, Tiers: "thorough"},
 			{PkgPath: fsPkg, Func: "verifC12K5", Opt: big, Tiers: "thorough"},
 			{PkgPath: fsPkg, Func: "verifC12TwoDirs3", Opt: big, Tiers: "thorough"},
